@@ -51,6 +51,7 @@ fn det_f64(a: &[Vec<f64>]) -> f64 {
 
 fn inv_f64(a: &[Vec<f64>]) -> Option<Vec<Vec<f64>>> {
     let n = a.len();
+    let scale0 = norm_inf(a).max(f64::MIN_POSITIVE);
     let mut m: Vec<Vec<f64>> = a.iter().enumerate().map(|(i, r)| { let mut v = r.clone(); v.extend((0..n).map(|j| if i == j { 1.0 } else { 0.0 })); v }).collect();
     for i in 0..n {
         let mut p = i;
@@ -59,7 +60,8 @@ fn inv_f64(a: &[Vec<f64>]) -> Option<Vec<Vec<f64>>> {
                 p = k;
             }
         }
-        if m[p][i].abs() < 1e-12 {
+        // relative to the magnitude of the matrix: conditioning does not depend on scale
+        if m[p][i].abs() < 1e-12 * scale0 {
             return None;
         }
         m.swap(p, i);
@@ -658,6 +660,29 @@ fn matrix_sets(mode: Mode) -> (Vec<(Vec<Vec<f64>>, &'static str)>, Vec<(Vec<Vec<
             }
         }
     }
+    // the same real parts scaled by powers of two (derivative parts stay O(1)): conditioning, and
+    // therefore singularity, does not depend on the magnitude of the entries
+    let mut scaled: Vec<(Vec<Vec<f64>>, &'static str)> = Vec::new();
+    let (mut ka, mut kr) = (0usize, 0usize);
+    for (m, class) in &mats {
+        let pick = match *class {
+            "alphabet" => {
+                ka += 1;
+                ka % 3 == 0
+            }
+            "row-order" => {
+                kr += 1;
+                kr % 10 == 0
+            }
+            _ => false,
+        };
+        if pick {
+            for (s, name) in [(2f64.powi(-60), "scaled-small"), (2f64.powi(50), "scaled-large")] {
+                scaled.push((m.iter().map(|r| r.iter().map(|x| x * s).collect()).collect(), name));
+            }
+        }
+    }
+    mats.extend(scaled);
     (mats, eig)
 }
 
